@@ -2,11 +2,13 @@ package chainsim
 
 import (
 	"encoding/hex"
+	"encoding/json"
 	"fmt"
 	"reflect"
 	"sort"
 	"strings"
 
+	"github.com/meshplus/bitxhub-core/governance"
 	"github.com/meshplus/bitxhub-kit/types"
 	"github.com/meshplus/bitxhub-model/constant"
 	"github.com/meshplus/bitxhub-model/pb"
@@ -104,13 +106,14 @@ func (s *scn) idPool() []string {
 		"available", "frozen", "forbidden", "registing", "governanceAdmin", "appchainAdmin", "auditAdmin", "appchain_mgr", "service_mgr", "rule_mgr", "role_mgr", "node_mgr", "dapp_mgr",
 		"SimpleMajority", "ZeroPermission", "a > 0.5 * t", "a >= 1", happyRule, "reason", "vpNode", "nvpNode"}
 	for _, c := range s.chains {
-		p = append(p, c.id, c.admin.Addr.String())
+		// (addresses also in the all-lower-case spelling a client may just as well send)
+		p = append(p, c.id, c.admin.Addr.String(), strings.ToLower(c.admin.Addr.String()))
 		for _, sv := range c.services {
 			p = append(p, c.id+":"+sv.id, sv.full(bxh))
 		}
 	}
 	for i := 0; i < s.cfg.World.Admins; i++ {
-		p = append(p, s.cfg.World.adminKey(i).Addr.String())
+		p = append(p, s.cfg.World.adminKey(i).Addr.String(), strings.ToLower(s.cfg.World.adminKey(i).Addr.String()))
 	}
 	for _, u := range s.users {
 		p = append(p, u.Addr.String())
@@ -135,13 +138,23 @@ func (s *scn) templates(r *sim.Rand) map[string][]*pb.Arg {
 	c := s.chains[r.Intn(len(s.chains))]
 	sv := c.services[r.Intn(len(c.services))]
 	fresh := keyFor("tmpl-" + u).Addr.String()
+	if r.Chance(0.25) {
+		// an account somebody else holds already, spelled in lower case
+		taken := []string{c.admin.Addr.String(), s.cfg.World.adminKey(r.Intn(s.cfg.World.Admins)).Addr.String()}
+		fresh = strings.ToLower(taken[r.Intn(len(taken))])
+	}
 	S, U, B := pb.String, pb.Uint64, pb.Bytes
+	outsider := s.users[len(s.users)-1].Addr.String()
 	prop := ""
 	if len(s.proposals) > 0 {
 		prop = s.proposals[len(s.proposals)-1-r.Intn(min(len(s.proposals), 4))]
 	}
+	if n := len(s.outsiderProposals); n > 0 && r.Chance(0.5) {
+		prop = s.outsiderProposals[n-1-r.Intn(min(n, 2))]
+	}
 	return map[string][]*pb.Arg{
-		"AppchainManager.RegisterAppchain": {S("chain" + u), S("name" + u), B(nil), S("ETH"), B(nil), S("broker"), S("desc"), S(happyRule), S("url"), S(fresh), S("reason")},
+		// (the admin list has to name the caller: the account that plays the outsider, alone or with a second administrator)
+		"AppchainManager.RegisterAppchain": {S("chain" + u), S("name" + u), B(nil), S("ETH"), B(nil), S("broker"), S("desc"), S(happyRule), S("url"), S([]string{outsider, outsider + "," + fresh, fresh}[r.Intn(3)]), S("reason")},
 		"AppchainManager.UpdateAppchain":   {S(c.id), S("name-" + c.id + u), S("desc2"), B(nil), S(c.admin.Addr.String()), S("reason")},
 		"ServiceManager.RegisterService":   {S(c.id), S("svc" + u), S("nm" + u), S("CallContract"), S("intro"), U(1), S(""), S("details"), S("reason")},
 		// name and details as registered: intro/permits alone take the no-proposal path
@@ -360,6 +373,17 @@ func (s *scn) afterBlockCalls(h uint64, txs []*pb.BxhTransaction, metas []*txMet
 		if ok {
 			s.res.Count("calls_succeeded")
 		}
+		if ok && role == "outsider" && len(rc.Ret) > 15 && rc.Ret[0] == '{' {
+			// proposals the outsider submitted itself (it may withdraw them)
+			g := &governance.GovernanceResult{}
+			if json.Unmarshal(rc.Ret, g) == nil && g.ProposalID != "" {
+				s.outsiderProposals = append(s.outsiderProposals, g.ProposalID)
+				s.res.Count("probe_outsider_submitted_a_proposal")
+			}
+		}
+		if ok && role == "outsider" && mt.call.name == "WithdrawProposal" {
+			s.res.Count("probe_outsider_withdrew_a_proposal")
+		}
 		if inList(internalOnly, mt.call.contract, mt.call.name) {
 			s.res.Count("calls_internal_entry_points")
 			if ok {
@@ -390,6 +414,17 @@ func (s *scn) callEffectCheck(h uint64, i int, mt *txMeta, rc *pb.Receipt, keysC
 		s.vio("C17", "read-method-writes", mt.call.contract+"."+mt.call.name, "block %d tx %d: %s.%s(%s) by %s changed state keys %q", h, i, mt.call.contract, mt.call.name, mt.callArgs, role, trimKeys(keysChanged))
 	}
 	if role == "outsider" {
+		// ... nor the account bookkeeping of the administrators that were there before the run began (the record
+		// that says which role holds an account)
+		var occ []string
+		for _, k := range keysChanged {
+			if _, was := s.setupOccupancy[k]; was {
+				occ = append(occ, k)
+			}
+		}
+		if len(occ) > 0 {
+			s.vio("C17", "outsider-changed-account-bookkeeping", mt.call.contract+"."+mt.call.name, "block %d tx %d: %s.%s(%s) by an outsider changed or deleted the account records of other parties: %q", h, i, mt.call.contract, mt.call.name, mt.callArgs, trimKeys(occ))
+		}
 		// no unprivileged call can reset or delete another party's interchain counters or records
 		var hit []string
 		for _, k := range keysChanged {
@@ -422,4 +457,52 @@ func (s *scn) touchesExisting(keys []string) bool {
 		}
 	}
 	return false
+}
+
+// applyOccupyCycle: the outsider applies for an appchain of its own and names a second administrator — a fresh
+// account, or an account somebody else holds already (a chain admin, a governance admin), spelled as registered, in
+// lower case or in upper case — and then (N odd) withdraws the application again. Every call goes through the
+// outsider oracles like any other direct call; each is a block of its own so that the twin judges it.
+func (s *scn) applyOccupyCycle(st CStep) {
+	var reg, wd *methodInfo
+	for i, m := range s.surface() {
+		if m.contract == "AppchainManager" && m.name == "RegisterAppchain" {
+			reg = &s.surface()[i]
+		}
+		if m.contract == "Governance" && m.name == "WithdrawProposal" {
+			wd = &s.surface()[i]
+		}
+	}
+	if reg == nil || wd == nil {
+		return
+	}
+	o := s.users[len(s.users)-1]
+	taken := []string{s.chains[st.A%len(s.chains)].admin.Addr.String(), s.cfg.World.adminKey(st.A % s.cfg.World.Admins).Addr.String()}
+	second := taken[st.A%2]
+	switch st.N % 3 {
+	case 0:
+		second = strings.ToLower(second)
+	case 1:
+		second = "0x" + strings.ToUpper(second[2:])
+	}
+	if st.N >= 4 {
+		second = keyFor(fmt.Sprintf("second-admin-%d", st.B)).Addr.String()
+	}
+	u := fmt.Sprintf("occ%d", st.B)
+	S, B := pb.String, pb.Bytes
+	s.flush()
+	args := []*pb.Arg{S("chain" + u), S("name" + u), B(nil), S("ETH"), B(nil), S("broker"), S("desc"), S(happyRule), S("url"), S(o.Addr.String() + "," + second), S("reason")}
+	s.add(s.b.bvmAddr(o, types.NewAddressByStr(reg.addr), reg.name, args...), &txMeta{kind: "call", sender: o, note: reg.contract + "." + reg.name + "/outsider", call: reg, callArgs: "second admin " + second})
+	rs := s.flush()
+	if rs == nil || len(rs.Receipts) == 0 {
+		return
+	}
+	rc := rs.Receipts[len(rs.Receipts)-1]
+	g := &governance.GovernanceResult{}
+	if rc.Status != pb.Receipt_SUCCESS || json.Unmarshal(rc.Ret, g) != nil || g.ProposalID == "" || st.N%2 == 0 {
+		return
+	}
+	s.add(s.b.bvmAddr(o, types.NewAddressByStr(wd.addr), wd.name, S(g.ProposalID), S("reason")), &txMeta{kind: "call", sender: o, note: wd.contract + "." + wd.name + "/outsider", call: wd, callArgs: "own proposal"})
+	s.flush()
+	s.res.Count("probe_outsider_application_withdrawn")
 }
